@@ -16,6 +16,7 @@ import (
 	"github.com/dedis/kyber"
 	"github.com/golang/protobuf/proto"
 
+	"verifharness/internal/dkgnet"
 	"verifharness/internal/doubles"
 	"verifharness/internal/h"
 )
@@ -206,4 +207,20 @@ func opFzFetch(mibs string) (string, string) {
 		return "nopanic", fmt.Sprintf("not-serving-fzfetch: a %d MiB document was not fetched: %d bytes, err=%v", mib, len(body), err)
 	}
 	return "nopanic", ""
+}
+
+// opFzSim: an otherwise honest key-generation session of n members (dkgnet.Sim drives the real session
+// layer and pipeline stages of every member) with adversarial messages injected at a chosen point.
+func opFzSim(seed, n, defs, events string) (string, string) {
+	fin := make(chan string, 1)
+	go func() {
+		out, _ := dkgnet.RunSimLine([]string{"fzsim", seed, n, defs, events})
+		fin <- out
+	}()
+	select {
+	case <-fin:
+		return "nopanic", ""
+	case <-time.After(40 * time.Second):
+		return "hang", "hang-fzsim: the session did not come to rest"
+	}
 }
